@@ -7,11 +7,15 @@
   maxValidationErrors. `Spec.failing cls doc` is the declarative specification: the failing fields in load
   order, each with the messages of its failing validators in declaration order.
 
+  The character-level semantics of Email and PhoneNumber are in Props/C17Text.lean (imported here, so that
+  `lake build BSVerif.Props.C17` checks them too).
+
   Distinct paths (`Nodup`) is the precondition of "exactly the failing fields": two fields with the same key in
   one object would share one entry of the exception's map (messages appended) — excluded, decidable.
 -/
 import BSVerif.Valid.Lemmas
 import BSVerif.Generated.ValidConsts
+import BSVerif.Props.C17Text      -- the text validators Email / PhoneNumber (model, Spec, theorems `BSVerif.Props.C17Text.*`)
 
 namespace BSVerif.Props.C17
 open BSVerif.Scope BSVerif.Scope.Spec BSVerif.Valid
